@@ -447,7 +447,7 @@ def analyse(repo):
             if entry.endswith(".load_data") and org == ["?"]:
                 org = [what.split("(")[-1].rstrip(".=)") .replace("arg 1", "y")]
             rows.append({"entry": entry, "arg": "+".join(org) + (f" [{gtxt}]" if gtxt else ""), "sink": what,
-                         "expr": ast.unparse(expr), "conv": cls})
+                         "expr": ast.unparse(expr).replace(".to_numpy()", ".values"), "conv": cls})   # one spelling in the emitted comment
     # structural facts that make the classification meaningful
     t = trees[TO]
     rg = find_func(t, "_reformat_and_group_data")
@@ -465,7 +465,14 @@ def analyse(repo):
                      "expr": nm, "conv": "fresh"})
     mc = find_func(trees[IV], "_merge_columns")
     rets = [n for n in ast.walk(mc) if isinstance(n, ast.Return) and n.value is not None and n in mc.body]
-    if len(rets) != 1 or not (isinstance(rets[0].value, ast.Call) and call_name(rets[0].value) == "np.array"):
+    rv = rets[0].value if len(rets) == 1 else None
+    if isinstance(rv, ast.Name):        # `merged = np.array(..); return merged`: a local bound exactly once is its value
+        binds = [n for n in ast.walk(mc) if isinstance(n, ast.Name) and isinstance(n.ctx, ast.Store) and n.id == rv.id]
+        asg = [n for n in mc.body if isinstance(n, ast.Assign) and len(n.targets) == 1 and isinstance(n.targets[0], ast.Name)
+               and n.targets[0].id == rv.id]
+        if len(binds) == 1 and len(asg) == 1:
+            rv = asg[0].value
+    if len(rets) != 1 or not (isinstance(rv, ast.Call) and call_name(rv) == "np.array"):
         raise U(f"{IV}:_merge_columns no longer returns np.array(..)")
     mo = ast.parse(translate._read(repo, "fairlearn/reductions/_moments/moment.py"))
     ml = ast.unparse(find_func(mo, "Moment.load_data"))
